@@ -435,6 +435,38 @@ func genCoordCase(r *Rng, big bool) *CCase {
 			}
 		}
 	}
+	// a move back: the overloaded holder of a target finds room on a shard that still holds the same
+	// target from an earlier move (in transfer, or a duplicate)
+	moveBack := n >= 2 && len(c.Active) >= 2 && r.Chance(10)
+	mbA, mbB := 0, 0
+	if moveBack {
+		k := r.Intn(len(c.Active))
+		h, g := c.Active[k], c.Active[(k+1)%len(c.Active)]
+		mbA = r.Intn(n)
+		mbB = (mbA + 1 + r.Intn(n-1)) % n
+		for i := range c.Probes {
+			st := []CSt{}
+			for _, s := range c.Probes[i].Status {
+				if s.Hash != h && s.Hash != g {
+					st = append(st, s)
+				}
+			}
+			c.Probes[i].Status = st
+		}
+		mk := func(x uint64) CSt {
+			return CSt{Hash: x, Health: 1, Series: 6, Total: 6, Times: uint64(3 + r.Intn(3))}
+		}
+		c.Probes[mbA].Status = append(c.Probes[mbA].Status, mk(h), mk(g))
+		old := mk(h)
+		old.State = r.Intn(2)
+		old.Times = uint64(r.Intn(6))
+		c.Probes[mbB].Status = append(c.Probes[mbB].Status, old)
+		for _, i := range []int{mbA, mbB} {
+			c.Probes[i].Ready, c.Probes[i].StatusOk, c.Probes[i].Rt1.Ok, c.Probes[i].Rt1.Eq, c.Probes[i].PostOk = true, true, true, true, true
+		}
+		c.Opt.DisAllev = false
+		c.Opt.MaxHead, c.Opt.MaxProc = 0, 10
+	}
 	for i := range c.Probes {
 		p := &c.Probes[i]
 		var sumS, sumT int64
@@ -452,6 +484,10 @@ func genCoordCase(r *Rng, big bool) *CCase {
 		mk(&p.Rt1)
 		mk(&p.Rt2)
 		p.Rt2.Idle = p.Rt1.Idle
+	}
+	if moveBack {
+		c.Probes[mbA].Rt1.Proc = 12 + r.PickI(0, 3)
+		c.Probes[mbB].Rt1.Proc = r.PickI(0, 1, 3)
 	}
 	return c
 }
